@@ -1733,9 +1733,9 @@ FIXED = [
 
 def run(ctx):
     nsh = 16
-    per = ctx.n(1600, 20000)
-    nprefix = ctx.n(8, 60)
-    big = ctx.n(3, 20)
+    per = ctx.n(1000, 20000)
+    nprefix = ctx.n(6, 50)
+    big = ctx.n(2, 16)
     args = [(ctx.seed, i, per, nprefix, big) for i in range(nsh)]
     res = Result()
     for r in pmap('harness.props.c07', 'shard', args):
